@@ -6,6 +6,7 @@
 -/
 import DltVerif.Model.Decode
 import DltVerif.Model.NonVerbose
+import DltVerif.Model.Filter
 
 namespace Dlt.Wire
 
@@ -241,27 +242,23 @@ def message : P Message := do
   let p ← payload
   pure { storageHeader := sh, header := h, extendedHeader := eh, payload := p }
 
-/-- numeric `DltFilterConfig`, converted as `ProcessedDltFilterConfig::from` does -/
-def dedup (l : List Bytes) : List Bytes :=
-  l.foldl (fun acc x => if acc.contains x then acc else acc ++ [x]) []
-
 def idList : P (List Bytes) := do
   let n ← nat
   many bytes n
 
-def filter : P ProcessedFilter := do
+/-- numeric `DltFilterConfig` -/
+def filterConfig : P Spec.FilterConfig := do
   let minLevel ← opt (bv 8)
   let apps ← opt idList
   let ecus ← opt idList
   let ctxs ← opt idList
   let ac ← int
   let cc ← int
-  pure { minLogLevel := minLevel.bind u8ToLogLevel
-         appIds := apps.map dedup
-         ecuIds := ecus.map dedup
-         contextIds := ctxs.map dedup
-         appIdCount := ac
-         contextIdCount := cc }
+  pure { minLogLevel := minLevel, appIds := apps, ecuIds := ecus, contextIds := ctxs
+         appIdCount := ac, contextIdCount := cc }
+
+/-- converted as `ProcessedDltFilterConfig::from` does -/
+def filter : P ProcessedFilter := processFilter <$> filterConfig
 
 -- printing ----------------------------------------------------------------
 
